@@ -22,9 +22,19 @@ def fill_calls(calls):
     return [c for c in calls if c[1].split("::")[-1] in ("fill_bytes", "try_fill_bytes")]
 
 
-def check_redraw_loops(chk, crate, g, rule="R8"):
+def check_redraw_loops(chk, crate, g, rule="R8", must_agree=False):
+    """must_agree (C09): from_rng and try_from_rng treat an all-zero block alike.  A method the type does not override is
+    SeedableRng's provided one - from_seed of one drawn block, so an all-zero block is remapped by from_seed, not redrawn"""
+    own = {m: crate.has_method(g.path, SEEDABLE, m) for m in ("from_rng", "try_from_rng")}
     for meth in ("from_rng", "try_from_rng"):
         inst = "XorShiftRng::%s" % meth
+        if not own[meth]:
+            other = "try_from_rng" if meth == "from_rng" else "from_rng"
+            ok = not (must_agree and own[other])
+            chk.ob(rule, inst + "|not overridden: the provided method builds from_seed of one drawn block (an all-zero block is remapped as by from_seed)",
+                   ok, "" if ok else "%s redraws on an all-zero block while the provided %s remaps it through from_seed: the two disagree "
+                   "for a source that delivers an all-zero block" % (other, meth), nontrivial=not ok)
+            continue
         try:
             key, body, ev, st, ret, recs = analyse_redraw(crate, g, meth)
         except (Unsupported, SymbolicLoop, Diverged, Anchor) as e:
